@@ -682,11 +682,41 @@ def rule_r1(ctx):
                 f"{effect}", instance=inst)
     # Geodesic.from_reflection delegates to Hyperplane.from_reflection
     f = ctx.p.get_function(HYP, "Geodesic.from_reflection")
-    if any(isinstance(n, ast.Call)
-           and dotted(n.func) == "Hyperplane.from_reflection"
-           for n in ast.walk(f.node)):
+    dcalls = [n for n in ast.walk(f.node) if isinstance(n, ast.Call)
+              and dotted(n.func) == "Hyperplane.from_reflection"]
+    if dcalls:
         r.ok("R1", "Geodesic.from_reflection:delegates", loc(f, f.node), "",
              "delegates the reflection test to Hyperplane.from_reflection")
+        # ... and hands over the isometry itself: Hyperplane.from_reflection
+        # converts to the column convention only for objects with .matrix
+        c = dcalls[0]
+        defs_f = single_defs(f.node)
+        a = c.args[0] if c.args else None
+        chain = [a]
+        seen = 0
+        while isinstance(chain[-1], ast.Name) and chain[-1].id in defs_f \
+                and seen < 4:
+            chain.append(defs_f[chain[-1].id])
+            seen += 1
+        bare = any(
+            (isinstance(x, ast.Attribute) and x.attr in ("matrix",
+                                                         "proj_data"))
+            or (isinstance(x, ast.Call) and dotted(x.func) == "getattr"
+                and len(x.args) >= 2 and isinstance(x.args[1], ast.Constant)
+                and x.args[1].value in ("matrix", "proj_data"))
+            for e in chain if e is not None for x in ast.walk(e))
+        if bare:
+            r.violation(
+                "R1", f"{f.fq}|delegate-arg", loc(f, c), dotted(c)[:120],
+                "the bare row-vector matrix of the isometry is handed to "
+                "Hyperplane.from_reflection, whose ndarray branch does not "
+                "transpose: the (-1)-eigenvector of the transposed matrix "
+                "is J.n, so the geodesic returned is the wall mirrored "
+                "through the origin",
+                instance="Geodesic.from_reflection:delegate-arg")
+        else:
+            r.ok("R1", "Geodesic.from_reflection:delegate-arg", loc(f, c),
+                 dotted(c)[:100], "the isometry object itself is handed on")
     else:
         r.violation("R1", f"{f.fq}|delegate", loc(f, f.node),
                     "Geodesic.from_reflection",
